@@ -160,9 +160,9 @@ func (cs c03Case) build(e *Engine, fresh *uint64) Tx {
 		if mask&B2BodyLen != 0 {
 			switch v % 4 {
 			case 0:
-				m.Body = m.Body[:131]
-			case 1:
-				m.Body = append(m.Body, 0)
+				m.Body = m.Body[:131-(v/4)%3*8]
+			case 1: // a zero tail of 1, 7, 8, 9, 24, 40, 72 or 104 bytes (8, 40, 72, 104: the message length is a multiple of 32)
+				m.Body = append(m.Body, make([]byte, []int{1, 8, 7, 40, 9, 72, 24, 104}[(v/4)%8])...)
 			case 2:
 				m.Body = nil
 			case 3:
